@@ -2334,4 +2334,194 @@ theorem crossOutDegree_int8_accumulation_wraps :
 example : sumW (2 ^ 15) (List.replicate 300 127) = List.foldl (fun acc x => wrap (2 ^ 15) (acc + x)) 0
     (List.replicate 300 127) := rfl
 
+/-! ### the delegation chain of the betweenness measures in the current source
+(`Generated/StructC11.lean`, round 4) -/
+
+open Pyunicorn.Generated in
+/-- **about the regenerated table of pure delegates**: `cross_betweenness(L1, L2)`,
+`internal_betweenness(L)` and `nsi_cross_betweenness(L1, L2)` only return
+`interregional_betweenness(sources=L1, targets=L2)` / `(sources=L, targets=L)` /
+`nsi_interregional_betweenness(sources=L1, targets=L2)`, which only return
+`nsi_betweenness(sources, targets[, nsi=False])` — the argument routing of `crossBetweenness`,
+`internalBetweenness`, `nsiCrossBetweenness`; likewise `nsi_internal_* (L) = nsi_cross_* (L, L)`. -/
+theorem betweenness_delegates_as_modelled :
+    StructC11.delegates.filter (fun d => d.func ∈ ["cross_betweenness", "internal_betweenness",
+        "nsi_cross_betweenness", "Network.interregional_betweenness",
+        "Network.nsi_interregional_betweenness", "nsi_internal_degree",
+        "nsi_internal_closeness_centrality", "nsi_internal_local_clustering"])
+      = [⟨"cross_betweenness", "self.interregional_betweenness",
+            ["sources=node_list1", "targets=node_list2"]⟩,
+         ⟨"internal_betweenness", "self.interregional_betweenness",
+            ["sources=node_list", "targets=node_list"]⟩,
+         ⟨"nsi_internal_degree", "self.nsi_cross_degree", ["node_list", "node_list"]⟩,
+         ⟨"nsi_internal_closeness_centrality", "self.nsi_cross_closeness_centrality",
+            ["node_list", "node_list"]⟩,
+         ⟨"nsi_internal_local_clustering", "self.nsi_cross_local_clustering",
+            ["node_list", "node_list"]⟩,
+         ⟨"nsi_cross_betweenness", "self.nsi_interregional_betweenness",
+            ["sources=node_list1", "targets=node_list2"]⟩,
+         ⟨"Network.interregional_betweenness", "self.nsi_betweenness",
+            ["sources=sources", "targets=targets", "nsi=False"]⟩,
+         ⟨"Network.nsi_interregional_betweenness", "self.nsi_betweenness",
+            ["sources=sources", "targets=targets"]⟩] := by
+  decide +kernel
+
+open Pyunicorn.Generated in
+/-- **about the regenerated statements of `Network.nsi_betweenness` / `_nsi_betweenness`**: the
+mask starts as zeros and gets one store `is_source[sources] = 1` (default: all nodes) —
+`srcMask`, `srcMaskAll`; the targets keep the caller's order (default `arange(N)`); the weights
+are replaced by ones unless `nsi`; `k = outdegree`, `flat_neighbors` = column indices of the
+non-zero coordinates; the guard `k.sum() == len(flat_neighbors) == 2 * n_links`
+(`betwAssertHolds`); the serial branch calls the kernel once on all targets and the result is
+divided by `w` (`NetBetw.nsiBetweenness`). -/
+theorem betweenness_wrapper_as_modelled :
+    StructC11.betwFacts = [
+      ("nsi_betweenness.signature", "self, sources, targets, nsi, parallelize, default:None, default:None, default:True, default:False"),
+      ("nsi_betweenness.is_source", "np.zeros(self.N, dtype=MASK)"),
+      ("nsi_betweenness.return", "self._nsi_betweenness(tuple(is_source), tuple(targets), nsi, parallelize)"),
+      ("nsi_betweenness.is_source[sources]", "1"),
+      ("nsi_betweenness.is_source[range(0, self.N)]", "1"),
+      ("nsi_betweenness.targets", "np.array(list(map(int, targets)))"),
+      ("nsi_betweenness.targets", "np.arange(0, self.N)"),
+      ("_nsi_betweenness.k", "to_cy(self.outdegree(), DEGREE)"),
+      ("_nsi_betweenness.w", "to_cy(self.node_weights, DWEIGHT)"),
+      ("_nsi_betweenness.w", "w if nsi else np.ones_like(w)"),
+      ("_nsi_betweenness.links", "nz_coords(self.sp_A)"),
+      ("_nsi_betweenness.flat_neighbors", "to_cy(np.array(links)[:, 1], NODE)"),
+      ("_nsi_betweenness.assert", "k.sum() == len(flat_neighbors) == 2 * self.n_links"),
+      ("_nsi_betweenness.worker", "partial(_nsi_betweenness, self.N, w, k, flat_neighbors, is_source)"),
+      ("_nsi_betweenness.return", "betw_w / w"),
+      ("_nsi_betweenness.betw_w", "worker(targets)")] := by
+  decide +kernel
+
+open Pyunicorn.Generated in
+/-- `Network.closeness(link_attribute)` and `Network.global_efficiency` **as regenerated from the
+current source**: unreachable nodes count as `self.N`, the closeness is `(self.N − 1) / rowsum`
+(`closenessConv N`, `Net.closenessW`), the efficiency is `1/float(N·(N−1)) · Σ 1/d`
+(`netGlobalEfficiency`). -/
+theorem arith_net_closeness_efficiency (n : Nat) (D : Dist) (i : Nat)
+    (hs : ((List.range n).map fun j => (D i j).getD (n : Rat)).sum ≠ 0)
+    (hn : n * (n - 1) ≠ 0)
+    (hz : ((List.range n).any fun i => (List.range n).any fun j => i != j && D i j == some 0) = false) :
+    closenessConv ((ArithC11.netClosenessUnreachable n : Int) : Rat) n D i
+        = ArithC11.netClosenessExpr n
+            ((List.range n).map fun j => (D i j).getD ((ArithC11.netClosenessUnreachable n : Int) : Rat)).sum
+      ∧ netGlobalEfficiency n D = some (.val (ArithC11.netGlobalEfficiencyExpr n
+          ((List.range n).map fun i =>
+            ((List.range n).map fun j => if i = j then 0 else invD (D i j)).sum).sum)) := by
+  constructor
+  · unfold closenessConv ArithC11.netClosenessExpr ArithC11.netClosenessUnreachable
+    simp only [Int.cast_natCast]
+    rw [if_neg hs]
+    push_cast
+    rfl
+  · unfold netGlobalEfficiency ArithC11.netGlobalEfficiencyExpr
+    simp only [hn, hz, if_false, Bool.false_eq_true]
+    congr 3
+    have h1 : 1 ≤ n := by
+      rcases n with _ | m
+      · simp at hn
+      · omega
+    rw [Nat.cast_mul, Nat.cast_sub h1]
+    push_cast
+    ring
+
+section Unweighted
+open Pyunicorn.Net
+/-! ### unweighted path lengths: the hypotheses on the distance matrix as theorems
+(`distQ` = C03's BFS model of `Network.path_lengths()`) -/
+
+/-- **the unweighted path-length matrix satisfies every side condition the path-measure theorems
+carry**: zero diagonal (`internalAPL_eq_mean_offdiag`, `singleton_cross_closeness`,
+`whole_efficiency_degenerate`), non-negative entries (`whole_closeness_rows`,
+`whole_nsi_closeness_disconnected`), no zero distance between different nodes
+(`localEfficiency_eq_def`, `globalEfficiency_eq_harmonic`, `whole_global_efficiency_as_mean_local`),
+every finite distance `≤ N − 1` — the value `cross_closeness` assigns to unreachable nodes really is
+"the maximum possible path length" — and, on undirected networks, symmetry (`crossAPL_symm`,
+`globalEfficiency_symm`, `block_swap`). -/
+theorem unweighted_path_lengths (n : Nat) (A : Adj) :
+    (∀ i, i < n → distQ n A i i = some 0)
+      ∧ (∀ i j d, distQ n A i j = some d → 0 ≤ d)
+      ∧ (∀ i j, i ≠ j → distQ n A i j ≠ some 0)
+      ∧ (∀ i j d, distQ n A i j = some d → d ≤ (n : Rat) - 1)
+      ∧ (Symm A → Symm (distQ n A)) := by
+  refine ⟨?_, ?_, ?_, ?_, ?_⟩
+  · intro i hi
+    simp [distQ, hi, DistL.dist_self n A i hi]
+  · intro i j d h
+    unfold distQ at h
+    split at h
+    · cases hd : dist n A i j with
+      | none => simp [hd] at h
+      | some k =>
+        simp only [hd, Option.map_some, Option.some.injEq] at h
+        rw [← h]; exact Nat.cast_nonneg k
+    · simp at h
+  · intro i j hij h
+    unfold distQ at h
+    split at h
+    · rename_i hb
+      cases hd : dist n A i j with
+      | none => simp [hd] at h
+      | some k =>
+        simp only [hd, Option.map_some, Option.some.injEq] at h
+        have hk : k = 0 := by exact_mod_cast h
+        subst hk
+        have hw := ((DistL.dist_some_iff n A i j 0 hb.1 hb.2).mp hd).1
+        cases hw
+        exact hij rfl
+    · simp at h
+  · intro i j d h
+    unfold distQ at h
+    split at h
+    · rename_i hb
+      cases hd : dist n A i j with
+      | none => simp [hd] at h
+      | some k =>
+        simp only [hd, Option.map_some, Option.some.injEq] at h
+        have hlt := DistL.dist_lt n A i j k hb.1 hb.2 hd
+        rw [← h]
+        have : ((k + 1 : Nat) : Rat) ≤ (n : Rat) := by exact_mod_cast hlt
+        push_cast at this
+        linarith
+    · simp at h
+  · intro hA i j
+    unfold distQ
+    by_cases hb : i < n ∧ j < n
+    · rw [if_pos hb, if_pos ⟨hb.2, hb.1⟩, dist_symm n A hA i j hb.1 hb.2]
+    · have hb' : ¬ (j < n ∧ i < n) := fun h => hb ⟨h.2, h.1⟩
+      rw [if_neg hb, if_neg hb']
+
+/-- **`cross_average_path_length` and `global_efficiency` are symmetric in the groups on every
+undirected unweighted network** — no hypothesis on the path-length matrix left -/
+theorem unweighted_symmetric_in_groups (n : Nat) (A : Adj) (hA : Symm A) (L1 L2 : List Nat)
+    (h1 : L1 ≠ []) (h2 : L2 ≠ []) :
+    crossAPL (distQ n A) L1 L2 = crossAPL (distQ n A) L2 L1
+      ∧ globalEfficiency (distQ n A) L1 L2 = globalEfficiency (distQ n A) L2 L1 :=
+  ⟨crossAPL_symm _ ((unweighted_path_lengths n A).2.2.2.2 hA) L1 L2,
+   globalEfficiency_symm _ ((unweighted_path_lengths n A).2.2.2.2 hA) L1 L2 h1 h2⟩
+
+/-- **`Network.global_efficiency()` of every unweighted network with `N ≥ 2` is the mean over the
+nodes `i` of `local_efficiency([i], all other nodes)`**, and **`internal_closeness(all nodes)`
+agrees with `Network.closeness` exactly on the rows without unreachable node** — the whole-network
+relations with their hypotheses discharged for `path_lengths()`. -/
+theorem unweighted_whole_network (n : Nat) (hn : 2 ≤ n) (A : Adj) (L : List Nat)
+    (h : L.Perm (List.range n)) :
+    netGlobalEfficiency n (distQ n A)
+        = some (.val (((List.range n).map (effRest n (distQ n A))).sum / (n : Rat)))
+      ∧ (localEfficiency (distQ n A) L L = none ∧ globalEfficiency (distQ n A) L L = .val 0)
+      ∧ ∃ f : Nat → Rat, internalCloseness (distQ n A) L = L.map f ∧ ∀ i,
+          ((∀ j, j < n → (distQ n A i j).isSome) → f i = Net.closenessW n (distQ n A) i) ∧
+          ((∃ j, j < n ∧ distQ n A i j = none) → Net.closenessW n (distQ n A) i < f i) := by
+  obtain ⟨hdiag, hnn, hpos, _, _⟩ := unweighted_path_lengths n A
+  exact ⟨(whole_global_efficiency_as_mean_local n hn _ fun i j _ _ hij => hpos i j hij).2,
+    whole_efficiency_degenerate _ n (by omega) L h hdiag,
+    whole_closeness_rows _ n hn L h hnn⟩
+
+/-- path 0–1–2 and an isolated node 3 -/
+example : (block (distQ 4 (fun a b => a + 1 == b && b < 3 || b + 1 == a && a < 3)) [0, 3] [2, 3])
+    = [[some 2, none], [none, some 0]] := by decide +kernel
+
+end Unweighted
+
 end Pyunicorn.Cross
